@@ -28,6 +28,7 @@ func runC39(c *Ctx) {
 	r.Rule("C39.R2", "a requested change of an immutable setting makes every outcome an *rtcerr.InvalidModificationError; a closed connection yields InvalidStateError", 2000)
 	r.Rule("C39.R4", "same rule as C14.R7 / C38.R4: Certificate.Equals, the test SetConfiguration uses to detect a changed certificate, answers true only via x509Cert.Equal and compares no key material by identity (a different certificate for the same key is a change)", 6)
 	r.Rule("C39.R3", "a failing call leaves GetConfiguration unchanged: every store that precedes an error return writes the current value (no partial changes; ICE-server validation precedes the unguarded stores)", 2000)
+	r.Rule("C39.R5", "every store into PeerConnection.configuration.Certificates writes a slice whose backing array only the connection holds (literal, append onto the stored list, copy), never the caller's own slice: otherwise the application's next write to its slice changes the certificate with no call and the guard compares the new certificate with itself (seed C39-m5; found SetConfiguration doing so on the tree, fixed)", 2)
 	r.NotCovered = append(r.NotCovered, "deep equality / aliasing of the slices returned by GetConfiguration", "what ICEGatherer.updateServers does with the new servers")
 	r.Trusted = append(r.Trusted, "absint soundness on the supported fragment", "data-independence: field values are only compared for equality")
 
@@ -37,6 +38,7 @@ func runC39(c *Ctx) {
 		return
 	}
 	c14CertEquals(c, "C39.R4", "C39.R4") // c14extra.go
+	c39R5(c)                             // c39b.go
 	pos := c.P.Pos(fi.Decl.Pos())
 	bp, ok1 := enumDomain(c, "C39.R1", "", "BundlePolicy", 77)
 	rm, ok2 := enumDomain(c, "C39.R1", "", "RTCPMuxPolicy", 77)
